@@ -89,6 +89,13 @@ func matchSpec(fn *ssa.Function, in ssa.Instruction, spec string, selSend map[*s
 	case "recv":
 		u, ok := in.(*ssa.UnOp)
 		return ok && u.Op == token.ARROW && valueName(fn, u.X) == arg
+	case "store-field":
+		s, ok := in.(*ssa.Store)
+		if !ok {
+			return false
+		}
+		fa, ok := s.Addr.(*ssa.FieldAddr)
+		return ok && valueName(fn, fa) == arg
 	case "select-recv":
 		// the block entered when a select chose the receive from the named channel
 		return false
